@@ -3,6 +3,7 @@ pub mod framework;
 pub mod secrets;
 pub mod engine_acct;
 pub mod engine_evlog;
+pub mod engine_http;
 pub mod engine_sync;
 pub mod prop_c01;
 pub mod prop_c02;
@@ -11,11 +12,20 @@ pub mod prop_c07;
 pub mod prop_c08;
 pub mod prop_c08_scan;
 pub mod prop_c10;
+pub mod prop_c11;
 
 use framework::PropertyDef;
 
 pub fn registry() -> Vec<PropertyDef> {
-    vec![prop_c01::def(), prop_c02::def(), prop_c06::def(), prop_c07::def(), prop_c08::def(), prop_c10::def()]
+    vec![
+        prop_c01::def(),
+        prop_c02::def(),
+        prop_c06::def(),
+        prop_c07::def(),
+        prop_c08::def(),
+        prop_c10::def(),
+        prop_c11::def(),
+    ]
 }
 
 /// Internal process sub-modes used by engines (crash children, decoder workers).
